@@ -614,9 +614,12 @@ class Interproc:
             for t in st.iv:
                 if prooted(t):
                     cands.add(t)
+            def pval(t):
+                # (a field of) a by-value parameter that the body never assigns: still the caller's argument at return
+                return t[0] == "v" and isinstance(t[1], int) and 1 <= t[1] <= b.argc and t[2][:1] != ("*",) and not b.defs.get(t[1])
             for (x, y) in st.rel:
                 for t in (x, y):
-                    if prooted(t):
+                    if prooted(t) or pval(t):
                         cands.add(t)
             for p, v in st.sym.items():
                 if v[0] == "n" and v[1] is not None and prooted(v[1]):
